@@ -47,6 +47,7 @@ type rx struct {
 	prefilter    func(string) bool // returns true if regex might match; nil = no prefilter
 	exactMatch   string            // non-empty: pattern is ^literal$; skip NFA entirely
 	exactMatchCI bool              // true when exactMatch uses case-insensitive comparison
+	exactGroups  int               // capture groups wrapping the whole ^literal$ (each equals the full match)
 }
 
 // rxCompiled holds all compile-time artifacts for a regex pattern so they can
@@ -58,6 +59,7 @@ type rxCompiled struct {
 	prefilter    func(string) bool
 	exactMatch   string
 	exactMatchCI bool
+	exactGroups  int
 }
 
 var _ plugintypes.Operator = (*rx)(nil)
@@ -107,9 +109,15 @@ func newRX(options plugintypes.OperatorOptions) (plugintypes.Operator, error) {
 			// newRX prepends, which would convert them to OpBeginLine/OpEndLine
 			// and make position-0 reasoning unsound.
 			if origParsed, err2 := syntax.Parse(options.Arguments, syntax.Perl); err2 == nil {
-				if lit, ci := extractExactMatch(origParsed.Simplify()); lit != "" {
+				simplified := origParsed.Simplify()
+				if lit, ci := extractExactMatch(simplified); lit != "" {
 					c.exactMatch = lit
 					c.exactMatchCI = ci
+					// extractExactMatch looks through capture groups that wrap the
+					// whole pattern; remember how many so Evaluate can fill them.
+					for n := simplified; n.Op == syntax.OpCapture; n = n.Sub[0] {
+						c.exactGroups++
+					}
 				}
 			}
 		}
@@ -125,6 +133,7 @@ func newRX(options plugintypes.OperatorOptions) (plugintypes.Operator, error) {
 		prefilter:    c.prefilter,
 		exactMatch:   c.exactMatch,
 		exactMatchCI: c.exactMatchCI,
+		exactGroups:  c.exactGroups,
 	}, nil
 }
 
@@ -140,10 +149,21 @@ func (o *rx) Evaluate(tx plugintypes.TransactionState, value string) bool {
 	// The \n guard protects against multi-line inputs where (?m)$ matches
 	// before a newline (e.g. "Upload\nmore" would satisfy (?sm)^Upload$).
 	if o.exactMatch != "" && !strings.ContainsRune(value, '\n') {
+		var matched bool
 		if o.exactMatchCI {
-			return strings.EqualFold(value, o.exactMatch)
+			matched = strings.EqualFold(value, o.exactMatch)
+		} else {
+			matched = value == o.exactMatch
 		}
-		return value == o.exactMatch
+		if matched && tx.Capturing() {
+			// Same captures the regex would have produced: group 0 and every
+			// group wrapping the whole pattern are the full value (TX.0-TX.9
+			// only, as below).
+			for i := 0; i <= o.exactGroups && i <= 9; i++ {
+				tx.CaptureField(i, value)
+			}
+		}
+		return matched
 	}
 
 	if tx.Capturing() {
